@@ -28,3 +28,39 @@ def showRC (r : R String) : String :=
 def joinNats (xs : List Nat) : String := " ".intercalate (xs.map toString)
 
 end MantraDex.Driver
+
+namespace MantraDex.Driver
+open MantraDex
+
+/-- token cursor: a parser is a function from the remaining tokens to (value, rest) -/
+abbrev P (α : Type) := List String → Option (α × List String)
+
+def pTok : P String
+  | [] => none
+  | t :: ts => some (t, ts)
+
+def pNat : P Nat := fun ts => do
+  let (t, ts) ← pTok ts
+  let n ← t.toNat?
+  pure (n, ts)
+
+def pOptNat : P (Option Nat) := fun ts => do
+  let (t, ts) ← pTok ts
+  if t == "-" then pure (none, ts) else do
+    let n ← t.toNat?
+    pure (some n, ts)
+
+def pNatList : P (List Nat) := fun ts => do
+  let (t, ts) ← pTok ts
+  if t == "-" then pure ([], ts) else do
+    let xs ← (t.splitOn ",").mapM (·.toNat?)
+    pure (xs, ts)
+
+def pRepeat (p : P α) : Nat → P (List α)
+  | 0, ts => some ([], ts)
+  | n + 1, ts => do
+    let (x, ts) ← p ts
+    let (xs, ts) ← pRepeat p n ts
+    pure (x :: xs, ts)
+
+end MantraDex.Driver
